@@ -209,18 +209,29 @@ Definition write_query_markers (tb : table) (refg qg : list gene) : mres cache :
   end.
 
 (* ---------------- create_marker_cache_from_specified_markers ---------------- *)
-(* the loop `for parent_node in marker_lookup` *)
-Fixpoint cc_loop (q : list gene) (tb : table) : mres table :=
+Definition in_parents (t : tree) (p : pkey) : bool := existsb (pkey_eqb p) (all_parents t).
+
+(* _parents_needing_markers: the keys of the parents of the tree that have more than one child *)
+Definition needs_markers (t : tree) (k : pkey) : bool :=
+  in_parents t k && (2 <=? length (children t k))%nat.
+
+(* the loop `for parent_node in marker_lookup`; need k = `needs_markers is None or parent_node in
+   needs_markers`: query overlap is demanded of the needed entries only, any other entry without a
+   query gene is written out empty *)
+Fixpoint cc_loop (need : pkey -> bool) (q : list gene) (tb : table) : mres table :=
   match tb with
   | [] => MOk []
   | (k, l) :: r =>
       let these := uniq (inq q l) in
-      if is_nil these && negb (is_nil l) then MErr E_NO_OVERLAP
-      else match cc_loop q r with
+      if is_nil these && negb (is_nil l) && need k then MErr E_NO_OVERLAP
+      else match cc_loop need q r with
            | MOk f => MOk ((k, these) :: f)
            | MErr e => MErr e
            end
   end.
+(* without a taxonomy_tree every entry is taken to be needed *)
+Definition cc_need (topt : option tree) : pkey -> bool :=
+  match topt with Some t => needs_markers t | None => fun _ => true end.
 Definition missing_ref (refg : list gene) (tb : table) : bool :=
   existsb (fun kl => existsb (fun g => negb (zmem g refg)) (snd kl)) tb.
 
@@ -235,7 +246,7 @@ Definition create_cache (tb : table) (refg qg : list gene) (topt : option tree) 
          end) with
   | MErr e => MErr e
   | MOk tb' =>
-      match cc_loop qg tb' with
+      match cc_loop (cc_need topt) qg tb' with
       | MErr e => MErr e
       | MOk final =>
           if missing_ref refg tb' then MErr E_NOT_IN_REF
@@ -318,8 +329,6 @@ Definition spec_markers (tb : table) (q : list gene) (minm : nat) (t : tree) (p 
   end.
 
 (* ---------------- which unknown markers demand an error (declarative, from the ORIGINAL table) ---------------- *)
-Definition in_parents (t : tree) (p : pkey) : bool := existsb (pkey_eqb p) (all_parents t).
-
 (* the listed entry of p never reaches the reference check as listed: it is replaced by its patched
    version, which is restricted to query genes.  That happens exactly for a non-root parent of the tree
    with >= 2 children, fewer than min usable own markers and something to patch with (an ancestor that
